@@ -7,7 +7,9 @@ Definition b2z (b : bool) : Z := if b then 1 else 0.
 Definition run_lex (k : Z) (s : str) : Z :=
   b2z (match k with 0 => lex_integer s | 1 => lex_decimal s | 2 => lex_boolean s | 3 => lex_double false s | 4 => lex_double true s
                     | 5 => lex_hex s | _ => lex_base64 s end).
-Definition run_int (t : nat) (s : str) : Z * Z := match make_int int_bounds t s with Some z => (1, z) | None => (0, 0) end.
+(* (model with the bounds read from the code, specification with the XSD bounds) *)
+Definition enc_int (o : option Z) : Z * Z := match o with Some z => (1, z) | None => (0, 0) end.
+Definition run_int (t : nat) (s : str) : (Z * Z) * (Z * Z) := (enc_int (make_int int_bounds t s), enc_int (make_int spec_bounds t s)).
 Definition run_print (z : Z) : str := print_int z.
 Definition opt_str (o : option str) : Z * str := match o with Some s => (1, s) | None => (0, []) end.
 Definition run_hex_to_b64 (s : str) : Z * str := opt_str (option_map enc64 (if lex_hex s then dec_hex s else None)).
